@@ -17,7 +17,10 @@ p = V + "/tools/strengthen_log.md"
 put("STRENGTHEN", open(p).read().strip() if os.path.exists(p) else "(none yet)")
 import glob
 rows = ["| extension | host | spec family | subsystem and what the specification says | tier |", "|---|---|---|---|---|"]
+tracked = set(subprocess.run(["git", "-C", V, "ls-files", "props"], stdout=subprocess.PIPE, text=True).stdout.split())
 for f in sorted(glob.glob(V + "/props/ext_*.py")):
+    if os.path.relpath(f, V) not in tracked:
+        continue          # work in progress: only committed extension modules are listed
     src = open(f).read()
     g = {}
     try:
@@ -33,4 +36,16 @@ for f in sorted(glob.glob(V + "/props/ext_*.py")):
     rows.append("| %s | %s | specs/%s | %s | %s |" % (os.path.basename(f)[4:-3], g.get("HOST"), g.get("FAM", "?"),
                 str(g.get("WHAT", "")).replace("|", "/"), "quick+thorough" if g.get("QUICK") else "thorough"))
 put("EXTENSIONS", "\n".join(rows))
+rows = ["| benign change | what it does (short) | quick |", "|---|---|---|"]
+def bkey(d):
+    m = re.match(r"(C\d+)-(\d+)", os.path.basename(d)); return (m.group(1), int(m.group(2)))
+for d in sorted(glob.glob(V + "/benign/C*-*"), key=bkey):
+    m = json.load(open(d + "/meta.json"))
+    r = m.get("check_result", {}).get("quick", {})
+    before = m.get("check_result_before", {}).get("quick", {})
+    st = "silent" if r.get("rc") == 0 else ("false alarm (rc=1)" if r.get("rc") == 1 else "check broke (rc=%s)" % r.get("rc"))
+    if before and before.get("rc") not in (None, 0):
+        st += " (was: %s; check repaired)" % ("false alarm" if before.get("rc") == 1 else "check broke")
+    rows.append("| %s | %s | %s |" % (os.path.basename(d), re.sub(r"\s+", " ", m.get("summary", ""))[:260].replace("|", "/"), st))
+put("BENIGN", "\n".join(rows))
 open(V + "/DESIGN.md", "w").write(s)
